@@ -18,6 +18,7 @@ static int cmd_lr(int, char**) {
     json in = json::parse(line);
     th::emit({{"begin", in["i"]}});
     json out; out["i"] = in["i"];
+    th::watch(in["i"].is_number() ? in["i"].get<long>() : -1, 60);
     for (int mode = 0; mode < 2; mode++) {
       bool prefix = mode == 1;
       SemanticGrammar<std::string> G;
@@ -88,6 +89,7 @@ static int cmd_lr(int, char**) {
       m["runs"] = runs;
       out[prefix ? "pre" : "full"] = m;
     }
+    th::unwatch();
     th::emit(out);
   }
   return 0;
